@@ -86,8 +86,10 @@ def run_copies(ctx, rng, n, monitor):
         for label, f in ways:
             ctx.evaluations += 1
             ctx.count(label.split()[0])
+            # the option settings in force while copying / unpickling decide nothing
+            opts = {"retain_names": False, "retain_coefficients": False} if (i + len(label)) % 4 == 0 else {}
             try:
-                with monitor.watch(f"C13:{label}", p):
+                with monitor.watch(f"C13:{label}", p), numpoly.global_options(**opts):
                     r = f(p)
             except Exception as err:  # noqa: BLE001
                 ctx.fail(dict(case, how=label), f"{label} raised {type(err).__name__}: {str(err)[:120]}", ["copy", f"how:{label}", "raises"])
@@ -95,10 +97,8 @@ def run_copies(ctx, rng, n, monitor):
             if not isinstance(r, numpoly.ndpoly):
                 ctx.fail(dict(case, how=label), f"{label} returned {type(r).__name__}", ["copy", f"how:{label}", "type"])
                 continue
-            # pickling passes retain_coefficients=False: all-zero terms may go, nothing else may change
+            # exactly the same polynomial array: stored terms (also all-zero ones), names (also unused ones), dtype (D57)
             probs = same_exact(p, r)
-            if label.startswith("pickle"):
-                probs = [x for x in probs if x != "stored terms differ"]
             if probs:
                 ctx.fail(dict(case, how=label), f"{label}: {probs}", ["copy", f"how:{label}", "value"])
         if len(s["terms"]) >= 2 and int(numpy.prod(s["shape"], dtype=int)) >= 2:
